@@ -681,6 +681,9 @@ pub fn jobs(pn: u32, tier: Tier) -> Vec<Job> {
                 v.push(job(&format!("seg-all-pairs-{}-lo{}-len{}", rt, lo, len), JobKind::Fixed { cases: seg_pair_cases_on(id, false, *lo, *len, rt, (k % 2) as i64), stop_on_first: false }, Rule::default(), &["ins_ge_5_copies"]));
             }
             v.push(job("seg-wide-insert-sequences", random(seg_cases(id, SegMix { w: [40, 30, 0, 2, 2, 10, 10], len: 0..=40, thorough: !q, only_small: false }), n(2_000, 50_000)), Rule::any("a history with >=2 inserts before a query", &["query_ge2_answers_multi_place", "ins_ge_5_copies"]), &[]));
+            // with a moving clock, clears and restarts: the places of every unexpired value must keep
+            // tiling its range whatever was stored, expired, queried or cleared before
+            v.push(job("seg-insert-sequences-with-time-and-clear", random(seg_cases(id, SegMix { w: [50, 8, 10, 4, 2, 12, 3], len: 0..=70, thorough: !q, only_small: false }), n(4_000, 100_000)), Rule::any("a history with >=2 inserts before a query", &["query_ge2_answers_multi_place", "ins_ge_5_copies"]), &["after_clear"]));
             v.push(job("seg-32-insert-sequences", random(seg_cases(id, SegMix { w: [40, 30, 0, 2, 2, 10, 10], len: 0..=40, thorough: false, only_small: true }), n(4_000, 100_000)), Rule::any("a history with >=2 inserts before a query", &["query_ge2_answers_multi_place", "ins_ge_5_copies"]), &[]));
             v.push(job("seg-32-hot-spots-long", random(seg_hot_cases(id, [14, 5, 1, 0, 1, 3, 2], 150..=700, true, None), n(400, 10_000)), Rule::any("a history with >=2 inserts before a query", &["query_ge2_answers_multi_place", "ins_ge_5_copies"]), &["chunk_ge_65_entries"]));
         }
